@@ -133,6 +133,8 @@ fn format_snapshot(entries: Option<Vec<SnapEntry>>, lru: bool, case_start: u64) 
 struct PendingSt {
     fut: LockFut,
     key: u32,
+    /// the callback script of a soft-limited call: a later poll may run further rounds
+    script: Option<Script>,
 }
 
 struct StreamSt {
@@ -195,6 +197,10 @@ impl Harness {
     }
     pub fn pending_ids(&self) -> Vec<u64> {
         self.pending.keys().copied().collect()
+    }
+    /// the pending call has a soft limit: polling it may run (further) eviction rounds
+    pub fn pending_has_script(&self, h: u64) -> bool {
+        self.pending.get(&h).map(|p| p.script.is_some()).unwrap_or(false)
     }
     pub fn pending_key(&self, h: u64) -> Option<u32> {
         self.pending.get(&h).map(|p| p.key)
@@ -551,7 +557,7 @@ impl Harness {
             Ok(Some(Ok(LockOutcome::None))) => "none".to_string(),
             Ok(Some(Ok(LockOutcome::Err))) => "err".to_string(),
             Ok(Some(Err(fut))) => {
-                self.pending.insert(h, PendingSt { fut, key: k });
+                self.pending.insert(h, PendingSt { fut, key: k, script: script.clone() });
                 "pending".to_string()
             }
             Err(_) => {
@@ -568,23 +574,40 @@ impl Harness {
         let Some(mut p) = self.pending.remove(&h) else {
             return self.set("bad");
         };
+        let script = p.script.clone();
         let r = catch_unwind(AssertUnwindSafe(|| match poll_once(p.fut.as_mut()) {
             Poll::Ready(o) => Ok(o),
             Poll::Pending => Err(p),
         }));
-        match r {
+        // rounds of the eviction callback that ran during this poll
+        let mut traces = Vec::new();
+        if let Some(st) = &script {
+            let mut st = st.borrow_mut();
+            traces = std::mem::take(&mut st.traces);
+            self.info.callback_invocations = st.invocations;
+            for (id, g) in st.stashed.drain(..) {
+                self.guards.insert(id, g);
+            }
+        }
+        let outcome = match r {
             Ok(Ok(LockOutcome::Guard(g))) => {
                 self.guards.insert(h, g);
-                self.set("guard")
+                "guard".to_string()
             }
-            Ok(Ok(LockOutcome::None)) => self.set("none"),
-            Ok(Ok(LockOutcome::Err)) => self.set("err"),
+            Ok(Ok(LockOutcome::None)) => "none".to_string(),
+            Ok(Ok(LockOutcome::Err)) => "err".to_string(),
             Ok(Err(p)) => {
                 self.pending.insert(h, p);
-                self.set("pending")
+                "pending".to_string()
             }
-            Err(e) => self.finish(Err(e)),
-        }
+            Err(_) => {
+                let (msg, loc) = take_panic().unwrap_or_default();
+                classify_panic(&msg, &loc)
+            }
+        };
+        self.info.outcome = outcome.clone();
+        traces.push(outcome);
+        traces.join(" ")
     }
 
     fn do_op(&mut self, h: u64, op: GOp) -> String {
